@@ -4,7 +4,7 @@ import random
 from fractions import Fraction as Fr
 
 from .. import families as fam
-from ..dsl import (Cfg, Spec, Sym, X, U, Z, Pg, Vg, t, T, t0, tf, nl1, nl2, at_t0, at_tf, integral, integral_control, sum_, C)
+from ..dsl import (Cfg, Spec, Sym, X, U, Z, Pg, Vg, t, T, t0, tf, nl1, nl2, at_t0, at_tf, integral, integral_control, sum_, wsum, C)
 from ..instance import Inst
 from ..match import Checker
 from ..ref.semantics import Ref
@@ -46,6 +46,9 @@ def objectives(spec, rng=None):
         [integral_control(x0 * pc + t), a * at_tf(x1) - tf],
         [integral(nl2(x0, t) * pc), integral(u * u) * T, at_tf(t * x0)],
         [integral(x1 * x1 + w) + sum_(nl1(u) * pc)],
+        # ONE ocp.sum / at_tf call on a row, matrix or column valued expression (then weighted): every entry is its own sum over the nodes
+        [wsum('sum', 1, 2, [1, 2], [u * u + x0, x0 * t]), wsum('sum+', 2, 2, [1, -1, 2, 3], [x0 * x1, u + vc, t * x1, nl1(x0)]),
+         wsum('at_tf', 2, 1, [1, 2], [x0, x1 * x1]) + wsum('sum', 3, 1, [1, 1, 2], [x0, u * pc, x1 * x1])],
     ]
     return lists
 
@@ -65,7 +68,7 @@ def instances(tier, seed):
     reps = 1 if tier == 'quick' else 6
     for rep in range(reps):
         for mi, (method, intg) in enumerate(meths):
-            for oi in range(5):
+            for oi in range(6):
                 s = copy.deepcopy(models[(n + rep) % 3])
                 s.objective = objectives(s)[oi]
                 N = [2, 3, 1][n % 3] if tier == 'quick' else rng.choice([1, 2, 3, 4])
@@ -80,6 +83,11 @@ def instances(tier, seed):
                 cfg = Cfg(method, N=N, M=M, intg=intg or 'rk', grid=g, degree=degree, scheme=scheme)
                 add(fam.with_horizon(s, h), cfg)
                 n += 1
+    # integral(grid='control') on grids whose nodes are decision variables, with a NUMERIC horizon (interval lengths come from the grid variables, not from T)
+    for mi, (method, intg, g) in enumerate((('MS', 'rk', fam.G_FREE), ('DC', None, fam.G_FREE), ('SS', 'rk', fam.G_UNI_LT), ('MS', 'expl_euler', fam.G_UNI_LT0))):
+        s = copy.deepcopy(models[mi % 3])
+        s.objective = objectives(s)[2]
+        add(fam.with_horizon(s, (('num', Fr(1, 2)), ('num', Fr(2)))), Cfg(method, N=[2, 3][mi % 2], M=1, intg=intg or 'rk', grid=g, degree=2, scheme='radau'))
     # seeded random objective term lists over random models (configuration side widened; values stay symbolic)
     from .. import randspec
     nrand = 6 if tier == 'quick' else 160
